@@ -24,7 +24,7 @@ engine.use_repo()
 
 PID = "S_SCHEDULE"
 CHUNK = 2
-THEOREM_MODULES = ["C04_Schedule", "C05_Schedule", "C06_Schedule", "C11_Schedule"]
+THEOREM_MODULES = ["C04_Schedule", "C05_Schedule", "C06_Schedule", "C11_Schedule", "C17_Schedule"]
 RULE = ("scenarios from the grammar in harness/scen.py for strategy 'schedule' (individual and collective sub-strategy, "
         "feasible and infeasible trips, all optional features drawn by the grammar), 30 % unchanged and 70 % with one directed "
         "odd-branch variant (vehicle without schedule, connector without target, two connectors, 0 kW station, discharge limit 1, "
@@ -36,11 +36,34 @@ ASSUMPTIONS = ["the model is the code repaired by fixes/SCH1.diff, SCH2.diff, SC
                "floats compared by value (+0.0 == -0.0), no tolerance",
                "Python ints that occur where floats are expected (0 defaults, JSON ints) are rendered as the equal float",
                "all datetimes are timezone-aware (the adapter refuses naive ones)"]
-UNPROVED = ["fuel of the bisections (1100) and of the collective retry loop (10**7) is supplied by the driver; sufficiency is "
-            "proved for the look-ahead loop of charge_individually and for the bisections over ordered fields, not for IEEE "
-            "doubles and not for the retry loop (observed: 1207 iterations in one step, corpus/S_SCHEDULE)"]
+UNPROVED = ["fuel of the bisections (1100) is supplied by the driver, the fuel of the collective retry loop is computed per "
+            "step from the proved bound (n*M+1)*A + n*M + n (retry_fuel; Properties/C17_Schedule.lean: "
+            "C17_schedule_step_total); sufficiency is proved over ordered fields, not for IEEE doubles (observed: 1207 "
+            "retry iterations in one step, corpus/S_SCHEDULE)"]
 FUEL = 1100
-RETRY_FUEL = 10000000
+RETRY_FUEL = 10000000   # fallback only (non-finite headroom); see retry_fuel()
+
+
+def retry_fuel(strat):
+    """fuel of the collective retry loop (`while len(vehicles) > 0`), computed from the bound PROVED in
+    Properties/C17_Schedule.lean (`C17_schedule_retry_loop_terminates`, `C17_schedule_step_total`):
+    (n*M + 1)*A + n*M + n  with  n >= number of vehicles / stored queue entries, connector headroom <= EPS*A,
+    headroom + 1 <= EPS*M.  Exact rational arithmetic on the doubles of the world state, one unit of slack on A and M for
+    the rounding of `cur_max_power - get_current_load()` in the code."""
+    import math
+    from fractions import Fraction as Fr
+    try:
+        eps = Fr(strat.EPS)
+        head = Fr(0)
+        for gc in strat.world_state.grid_connectors.values():
+            h = Fr(gc.cur_max_power) - sum((Fr(v) for v in gc.current_loads.values()), Fr(0))
+            head = max(head, h)
+        n = max(len(getattr(strat, "energy_needed_per_vehicle", None) or {}), len(strat.world_state.vehicles))
+        a = math.ceil(head / eps) + 1
+        m = math.ceil((head + 1) / eps) + 1
+        return (n * m + 1) * a + n * m + n
+    except (ValueError, OverflowError, TypeError, ZeroDivisionError):
+        return RETRY_FUEL
 US_DAY = 86400 * 1000000
 
 
@@ -147,7 +170,7 @@ def r_state(strat):
 def render_world(strat):
     ws = strat.world_state
     parts = ["step_schedule", f(strat.EPS), f(strat.ts_per_hour), w_dt(strat.current_time),
-             str(td_us(strat.interval)), str(strat.ITERATIONS), str(FUEL), str(RETRY_FUEL),
+             str(td_us(strat.interval)), str(strat.ITERATIONS), str(FUEL), str(retry_fuel(strat)),
              "1" if strat.LOAD_STRAT == "collective" else "0",
              "1" if strat.warn_core_standing_time else "0", w_core(strat.core_standing_time)]
     inst(strat.current_time)
